@@ -106,6 +106,7 @@ def queries(g, L, known, grid, rng=None, nb_limit=None, times=None):
         nbs.append(present[1:3])
     nbs.append(([present[0]] if present else []) + [unknown])
     nbs.append([unknown])
+    nbs.append([])      # an empty nbunch restricts the answer to no node at all
     if nb_limit and len(nbs) > nb_limit and rng:
         nbs = [None] + rng.sample(nbs[1:], nb_limit - 1)
     ts = [NoT] + (list(times) if times is not None else list(range(grid[0], grid[1] + 1)))
